@@ -224,6 +224,8 @@ impl Selector {
         }
 
         let fd = io_data.fd;
+        #[cfg(may_verif)]
+        may_queue::verif::point(may_queue::verif::site::EP_DEL_FD_ENTER, fd as usize);
         let id = fd as usize % self.vec.len();
         let single_selector = &self.vec[id];
         let epoll = &single_selector.epoll;
